@@ -12,7 +12,7 @@ from .. import astspec as A
 from .. import srcmodel as S
 from ..core import AnalysisError, norm
 
-LEVEL = "proof"
+LEVEL = "other"
 BOOKKEEPING = ("coord", "__weakref__")
 TRAVERSAL_OVERRIDES = {"children", "__iter__", "__init__"}
 FORBIDDEN_EXTRA = {"__getattr__", "__getattribute__", "__setattr__", "__len__", "__bool__", "__getitem__", "show", "__repr__"}
